@@ -62,6 +62,12 @@ def cases(chk):
     for op in (0, 3, 9):
         for j in range(0, 8):
             yield "crash", {"pre": [[op, KEYS[TABLE_OF[op]][0], 0, 0]], "op": [op, KEYS[TABLE_OF[op]][0], 1, 0], "kill": j}
+    # the same, dying by an exception that unwinds the stack (an interrupt): a finally block that commits would make the half-done update durable
+    for op in sorted(axo.OPS):
+        t = TABLE_OF[op]
+        creator = {0: 0, 1: 0, 2: 0, 3: 3, 4: 4, 5: 4, 6: 4, 7: 7, 8: 7, 9: 9}[op]
+        for j in range(0, 6):
+            yield "crash", {"pre": [[creator, KEYS[t][0], 0, 0]], "op": [op, KEYS[t][0], 1, KEYS[t][2]], "kill": j, "mode": "raise"}
     # every operation x every kill point, on a database where the key exists and where it does not
     for op in sorted(axo.OPS):
         t = TABLE_OF[op]
@@ -347,10 +353,12 @@ def run_case(chk, stream, case):
             if pid == 0:
                 code = 3
                 try:
-                    _child(path, pool, op, j)
+                    _child(path, pool, op, j, case.get("mode", "kill"))
                     code = 0
                 except sqlite3.IntegrityError:
                     code = 5
+                except _Interrupted:
+                    code = 17            # the stack has unwound (every finally block of the store ran); now the process is gone
                 finally:
                     os._exit(code)
             _pid, status = os.waitpid(pid, 0)
@@ -376,8 +384,8 @@ def run_case(chk, stream, case):
                 bad.append("own identity / registration id changed")
             if bad:
                 fails.append(oracle("C13:crash-not-atomic:" + axo.OPS[op[0]][0],
-                                    "history %s then %s%s, process killed before its write statement #%d: %s"
-                                    % (case["pre"], axo.OPS[op[0]][0], tuple(op[1:]), j, "; ".join(bad[:3]))))
+                                    "history %s then %s%s, process %s before its write statement #%d: %s"
+                                    % (case["pre"], axo.OPS[op[0]][0], tuple(op[1:]), "interrupted by an exception" if case.get("mode") == "raise" else "killed", j, "; ".join(bad[:3]))))
     finally:
         if store is not None:
             close_store(store)
@@ -389,9 +397,14 @@ def run_case(chk, stream, case):
     return fails
 
 
-def _child(path, pool, op, j):
-    """open the real store; die just before the j-th write statement (BEGIN/COMMIT/DML) of the operation"""
-    state = {"n": 0, "armed": False}
+class _Interrupted(BaseException):
+    """the process is dying by an exception (what a KeyboardInterrupt / SIGINT does): the stack unwinds, finally blocks run, then the process ends"""
+
+
+def _child(path, pool, op, j, mode="kill"):
+    """open the real store; die just before the j-th write statement (BEGIN/COMMIT/DML) of the operation — by a hard kill (os._exit), or,
+    mode "raise", by an exception raised at the store's next call into the database after the (j-1)-th statement has run"""
+    state = {"n": 0, "armed": False, "hit": False}
     real_connect = sqlite3.connect
 
     def tracer(sql):
@@ -399,11 +412,38 @@ def _child(path, pool, op, j):
             return
         u = sql.strip().upper()
         if u.startswith(("BEGIN", "COMMIT", "DELETE", "INSERT", "UPDATE", "ROLLBACK", "REPLACE")):
-            if state["n"] == j:
-                os._exit(17)
+            if mode == "kill":
+                if state["n"] == j:
+                    os._exit(17)
+            elif state["n"] + 1 == j:
+                state["hit"] = True          # this statement still runs; the next call into the database raises
             state["n"] += 1
 
+    def check():
+        if state["armed"] and not state.get("raised") and (state["hit"] or (mode == "raise" and j == 0)):
+            state["raised"] = True           # once: what the unwinding stack still does with the database is the code's own doing
+            raise _Interrupted()
+
+    class Cur(sqlite3.Cursor):
+        def execute(self, *a, **kw):
+            check()
+            return sqlite3.Cursor.execute(self, *a, **kw)
+
+    class Conn(sqlite3.Connection):
+        def cursor(self, *a, **kw):
+            return sqlite3.Connection.cursor(self, Cur)
+
+        def execute(self, *a, **kw):
+            check()
+            return sqlite3.Connection.execute(self, *a, **kw)
+
+        def commit(self):
+            check()
+            return sqlite3.Connection.commit(self)
+
     def connect(*a, **kw):
+        if mode == "raise":
+            kw["factory"] = Conn
         c = real_connect(*a, **kw)
         c.set_trace_callback(tracer)
         return c
